@@ -1336,6 +1336,29 @@ func (s *verifSim) entrySet(reg *verifReg, v *verifView, viewName string, accoun
 	before := s.snapshot()
 	err := registrystate.SetViaView(s.st, account, reg.name, viewName, requests)
 	after := s.snapshot()
+	if err != nil && len(reqs) > 1 {
+		// SetViaViewInTx walks the requests in Go map order, so which of
+		// them were applied to the transaction before the refusal is a
+		// matter of chance; a refused call is repeated (it must change
+		// nothing any of the times) so that a partial write that reaches
+		// the storage shows with near certainty, whatever the order
+		// (small Go maps mostly iterate from their first inserted key: the
+		// repetitions insert the requests in rotated orders)
+		for k := 1; k < 6; k++ {
+			again := make(map[string]interface{}, len(reqs))
+			for i := range reqs {
+				r := reqs[(i+k)%len(reqs)]
+				again[r] = requests[r]
+			}
+			if err2 := registrystate.SetViaView(s.st, account, reg.name, viewName, again); err2 == nil {
+				c.Count("observe:refused-multi-request-accepted-on-repetition")
+				s.unlock()
+				c.Logf("set %s/%s %s -> undecided", reg.key(), viewName, verifCanon(requests))
+				return
+			}
+		}
+		after = s.snapshot()
+	}
 	s.unlock()
 	if len(reqs) == 1 {
 		c.Logf("set %s/%s %s=%s -> %s", reg.key(), viewName, reqs[0], verifCanon(requests[reqs[0]]), verifErrKind(err))
@@ -1353,7 +1376,16 @@ func (s *verifSim) entrySet(reg *verifReg, v *verifView, viewName string, accoun
 			s.rejected++
 			c.Count("probe:rejected-multi-request")
 		}
-		s.checkUnchanged(before, after, "C30/rejected-write-changed-data", fmt.Sprintf("rejected set %s through %s/%s (%v)", verifCanon(requests), reg.key(), viewName, err))
+		what := fmt.Sprintf("rejected set %s through %s/%s", verifCanon(requests), reg.key(), viewName)
+		if len(reqs) > 1 {
+			// which part got through depends on Go map order: keep the
+			// message (part of the event log) free of it
+			if before.all != after.all {
+				c.Violate("C30/rejected-write-changed-data", "%s (repeated 6 times): stored data changed, before %s", what, before.all)
+			}
+			return
+		}
+		s.checkUnchanged(before, after, "C30/rejected-write-changed-data", fmt.Sprintf("%s (%v)", what, err))
 		return
 	}
 	if v == nil || account != reg.account {
